@@ -86,5 +86,19 @@ def scaled_families(n):
         ("backslash-newlines", "@a{k, t = {" + "x \\\\\n" * n + "}}"),
         ("n-strings", "".join('@string{s%d = "v"}\n' % i for i in range(n))),
         ("failed-then-n-lines", "@a{k, = \n" + "text\n" * n),
-    ]
+    ] + [(name, f(n)) for name, f in LENGTH_FAMILIES]
     return fam
+
+
+# names, keys and values of length n (swept over every n up to a few hundred as well: message formatting, column
+# arithmetic, abbreviation of long lists and the like depend on lengths, not on sizes)
+LENGTH_FAMILIES = [
+    ("dup-field-key-of-length-n", lambda n: "@a{k, " + "x" * n + " = 1, " + "x" * n + " = 2}\n@b{j}"),
+    ("dup-entry-key-of-length-n", lambda n: "@a{" + "k" * n + ", t = {v}}\n@a{" + "k" * n + ", t = {w}}"),
+    ("dup-string-key-of-length-n", lambda n: "@string{" + "s" * n + " = 1}@string{" + "s" * n + " = 2}"),
+    ("type-of-length-n", lambda n: "@" + "t" * n + "{k, t = 1}"),
+    ("n-repeated-field-keys", lambda n: "@a{k, " + ", ".join("f%d = 1, f%d = 2" % (i, i) for i in range(n)) + "}"),
+    ("n-aborted-blocks-in-a-row", lambda n: "".join("@article{key%d\n title = {t}\n}\n" % i for i in range(n)) + "@a{ok}"),
+    ("n-aborted-strings-in-a-row", lambda n: "".join("@string{s%d\n}\ntext %d\n" % (i, i) for i in range(n)) + "@a{ok}"),
+    ("value-of-length-n-then-opener", lambda n: '@a{k, f = "' + "v" * n + " {x @b{j, t = {ok}}"),
+]
